@@ -167,6 +167,12 @@ def _execute(job):
         elif ep == "err_out_multi":
             rc, out, err = cli(fl + ["-o", "out.md", "a.md", "b.md"])
             side = out == ""
+        elif ep == "err_out_dir":
+            rc, out, err = cli(fl + ["-o", "out.md", "."])
+            side = out == ""
+        elif ep == "err_out_glob":
+            rc, out, err = cli(fl + ["-o", "out.md", "*.md"])
+            side = out == ""
         elif ep == "err_inplace_stdin":
             rc, out, err = cli(fl + ["--inplace", "-"], PROBE)
             side = out == ""
